@@ -310,7 +310,7 @@ if granted == 0 or conflicts == 0:
 ck.notes.append(f'try_lock: granted on {granted} paths, refused on {conflicts} paths')
 
 # ---------------- serialize / restore
-ck.declare('K12_serialize_restore_identity', 'from_serializable(to_serializable(lm)) over every table shape', 'both tables come back entry for entry (key, owner, handle, acquisition time, timeout; transaction -> key list) and the default timeout is kept')
+ck.declare('K12_serialize_restore_identity', 'from_serializable(to_serializable(lm)) over every table shape', 'every lock that is not past its TTL comes back unchanged (key, owner, handle, times), nothing is invented, and every restored lock is listed under its owner (invariant I)')
 for nl, tv in shapes():
     st = ex.new_state()
     tb = Table(st, nl, tv)
@@ -328,11 +328,18 @@ for nl, tv in shapes():
                 continue
             r2.st.roots['lm'] = r2.retval
             L, Tm = post_tables(r2.st)
-            cs = [z3.BoolVal(len(L) == nl and len(Tm) == len(tv))]
+            # a restore may shed locks that are already past their TTL; everything else comes back as it was
+            cs = [z3.BoolVal(len(L) <= nl)]
             for i in range(nl):
-                cs.append(z3.Or([z3.And(k == tb.keys[i].id, t == tb.tx[i], h == tb.h[i], a == tb.acq[i], o == tb.tmo[i]) for (k, t, h, a, o) in L] + [z3.BoolVal(False)]))
-            for j in range(len(tv)):
-                cs.append(z3.Or([z3.And(tt == tb.ttx[j], z3.BoolVal(len(ks) == len(tb.tvec[j])), *[x == s_.id for x, s_ in zip(ks, tb.tvec[j])]) for tt, ks in Tm] + [z3.BoolVal(False)]))
+                same = z3.Or([z3.And(k == tb.keys[i].id, t == tb.tx[i], h == tb.h[i], a == tb.acq[i], o == tb.tmo[i]) for (k, t, h, a, o) in L] + [z3.BoolVal(False)])
+                absent = z3.And([k != tb.keys[i].id for (k, t, h, a, o) in L] + [z3.BoolVal(True)])
+                cs.append(z3.Or(same, z3.And(absent, expired_at_some(r2.st, tb.acq[i], tb.tmo[i]))))
+            for (k, t, h, a, o) in L:
+                cs.append(z3.Or([z3.And(k == tb.keys[i].id, t == tb.tx[i], h == tb.h[i]) for i in range(nl)] + [z3.BoolVal(False)]))
+            for tt, ks in Tm:
+                # the reverse index invents nothing
+                cs.append(z3.Or([z3.And(tt == tb.ttx[j], *[z3.Or([x == s_.id for s_ in tb.tvec[j]] + [z3.BoolVal(False)]) for x in ks]) for j in range(len(tv))] + [z3.BoolVal(False)]))
+            cs.append(invariant(L, Tm))
             ck.require(ex, 'K12_serialize_restore_identity', r2.pc, None, z3.And(cs), wit, lambda m, w: 'serialize-restore')
 
 # the reverse index may list keys a transaction no longer owns (taken over after expiry): shapes with two listed keys
@@ -430,7 +437,8 @@ def _concrete_violation(w, rep):
         live = {kn(l['key']): l['tx'] for l in w['table']['locks'] if not l.get('expired')}
         bad = bad or rep['result'].get('holder') != live.get(kn(w['key']))
     elif op == 'serialize_restore':
-        bad = bad or rep['after'] != rep['before']
+        exp = {kn(l['key']) for l in w['table']['locks'] if l.get('expired')}
+        bad = bad or any(k not in after for k in before if k not in exp) or any(k not in before or after[k] != before[k] for k in after)
     elif op in ('release_by_handle_with_wait_cleanup', 'cleanup_expired_with_wait_cleanup'):
         if op.startswith('release'):
             lost = {l['tx'] for l in before.values() if l['handle'] == w['handle']}
